@@ -468,6 +468,21 @@ impl BoundsAnalyzer {
             .any(|bounds| bounds.lower == f64::INFINITY || bounds.upper == f64::NEG_INFINITY)
     }
 
+    /// Whether the derived range of an integer variable holds no integer: no
+    /// value of that variable satisfies the constraints it was derived from.
+    /// Same rounding as `apply_to_domain`, which keeps the declared domain then.
+    pub(crate) fn has_integer_range_without_integer(
+        &self,
+        domain: &IndexMap<String, DomainVariable>,
+    ) -> bool {
+        domain.iter().any(|(name, variable)| {
+            matches!(variable.get_type(), VariableType::IntegerRange(_, _))
+                && self.variable_bounds.get(name).is_some_and(|bounds| {
+                    (bounds.lower - self.tolerance).ceil() > (bounds.upper + self.tolerance).floor()
+                })
+        })
+    }
+
     pub(crate) fn apply_to_domain(&self, domain: &mut IndexMap<String, DomainVariable>) {
         for (name, variable) in domain {
             let Some(bounds) = self.variable_bounds.get(name).copied() else {
@@ -490,8 +505,8 @@ impl BoundsAnalyzer {
                     let upper = (bounds.upper + self.tolerance).floor();
                     if lower > upper {
                         // There is no integral point in the inferred interval.
-                        // Keep the declared domain: the original constraint
-                        // rows will report infeasibility at solve time.
+                        // Keep the declared domain: the linearizer states the
+                        // infeasibility with an explicit row.
                         continue;
                     }
                     VariableType::IntegerRange(lower as i32, upper as i32)
